@@ -83,7 +83,7 @@ Proof.
   destruct c as [c|c|c u3 u2 u1 u0]; cbn [schar_ok char_val].
   - tauto.
   - destruct (esc_letter c two_char_escapes) as [b|] eqn:E; [|congruence]. intros _.
-    apply esc_agree in E. apply low_scalar. tauto.
+    apply esc_agree in E. destruct E as (_ & _ & E). apply (low_scalar c E).
   - tauto.
 Qed.
 
